@@ -1,14 +1,15 @@
 From Coq Require Import ZArith List.
-From PV Require Import C09.C09_Proofs.
+From PV Require Import C09.C09_Proofs C09.C09_Release.
 
-(* F10 (unbuffered channel as it is): exactly-once and release are refuted *)
+(* PRE-FIX variants (fx = false = go.h before b2db000 / 90f131c; /repo now contains both repairs, these record why):
+   F10 (unbuffered channel before its repair): exactly-once and release are refuted *)
 Theorem chan_exactly_once_unbuffered_refuted : C09_Witness.chan_exactly_once_unbuffered_refuted_stmt.
 Proof. exact C09_Witness.chan_exactly_once_unbuffered_refuted. Qed.
 Print Assumptions chan_exactly_once_unbuffered_refuted.
 Theorem chan_release_unbuffered_refuted : C09_Witness.chan_release_unbuffered_refuted_stmt.
 Proof. exact C09_Witness.chan_release_unbuffered_refuted. Qed.
 Print Assumptions chan_release_unbuffered_refuted.
-(* F11 (buffered channel): release is refuted across vCPUs *)
+(* F11 (buffered channel BEFORE its repair, fx = false): release is refuted across vCPUs *)
 Theorem chan_release_buffered_refuted : C09_Witness.chan_release_buffered_refuted_stmt.
 Proof. exact C09_Witness.chan_release_buffered_refuted. Qed.
 Print Assumptions chan_release_buffered_refuted.
@@ -96,3 +97,37 @@ Theorem chan_false_timeout_only_when_expired_unbuffered :
     C09_Common.e_r e = C09_Common.RTimeout -> C09_Common.expired (C09_Common.e_now e) (C09_Common.e_exp e) = true.
 Proof. exact C09_TimeProofs.unbuf_timeout_reason. Qed.
 Print Assumptions chan_false_timeout_only_when_expired_unbuffered.
+
+(* false only because of an expired timeout, buffered channel (before and after the F11 repair) *)
+Theorem chan_false_timeout_only_when_expired_buffered :
+  forall fx mcap progs now0 s e, C09_BufProofs.breach fx mcap progs now0 s -> In e (C09_Buf.b_log s) ->
+    C09_Common.e_r e = C09_Common.RTimeout -> C09_Common.expired (C09_Common.e_now e) (C09_Common.e_exp e) = true.
+Proof. exact C09_BufTimeProofs.buf_timeout_reason. Qed.
+Print Assumptions chan_false_timeout_only_when_expired_buffered.
+
+(* release, unbuffered channel, REPAIRED code (fx = true), every schedule: in a quiescent state (mutex free, every
+   thread between two operations or asleep in a cv wait) nobody sleeps after close(), no receiver sleeps while a value
+   is in the slot, a sender asleep in loop 2 still has its value in the slot (not taken), and no sender waiting for a
+   receiver / the slot sleeps while a receiver sleeps *)
+Theorem chan_release_unbuffered :
+  forall progs now0 s, C09_UnbufProofs.ureach true progs now0 s -> C09_UnbufRelease.uquiescent s ->
+    (C09_Unbuf.u_closed s = true -> forall t, C09_Unbuf.u_w s t <> C09_Common.Asleep) /\
+    (forall t e, C09_Unbuf.u_pc s t = C09_Unbuf.UR_w e -> C09_Unbuf.u_w s t = C09_Common.Asleep -> C09_Unbuf.u_slot s = None) /\
+    (forall t v e q, C09_Unbuf.u_pc s t = C09_Unbuf.US_w2 v e q -> C09_Unbuf.u_w s t = C09_Common.Asleep ->
+                     q = C09_Unbuf.u_seq s /\ C09_Unbuf.u_slot s = Some v) /\
+    (forall t1 v e t2 e2, C09_Unbuf.u_pc s t1 = C09_Unbuf.US_w1 v e -> C09_Unbuf.u_w s t1 = C09_Common.Asleep ->
+                          C09_Unbuf.u_pc s t2 = C09_Unbuf.UR_w e2 -> C09_Unbuf.u_w s t2 = C09_Common.Asleep -> False).
+Proof. exact C09_UnbufRelease.unbuf_release. Qed.
+Print Assumptions chan_release_unbuffered.
+Example chan_release_unbuffered_hyps_met :
+  exists s, C09_UnbufProofs.ureach true C09_Witness.f10_progs 1000 s /\ C09_UnbufRelease.uquiescent s /\
+            C09_Unbuf.u_w s 3%nat = C09_Common.Asleep /\
+            (exists v e, C09_Unbuf.u_pc s 3%nat = C09_Unbuf.US_w1 v e) /\ C09_Unbuf.u_taken s = ((2, 0)%nat :: nil).
+Proof. exact C09_UnbufRelease.unbuf_release_example. Qed.
+
+(* F40: release on the REPAIRED buffered channel (fx = true) is still refuted for capacity >= 2 with a timed send:
+   a sender that consumed a wake-up leaves by timeout after a torn tail/head read; another sender sleeps for ever
+   with a free slot, the channel open, nobody inside a call (replayed on the real go.h by the E3 step of the check) *)
+Theorem chan_release_buffered_repaired_refuted : C09_Witness2.chan_release_buffered_repaired_refuted_stmt.
+Proof. exact C09_Witness2.chan_release_buffered_repaired_refuted. Qed.
+Print Assumptions chan_release_buffered_repaired_refuted.
